@@ -120,7 +120,7 @@ struct Item {
     std::function<void()> body;  // runs as fiber 0
     Bounds bounds;  // per item override (filled from tier defaults)
     bool enumerate_faults = false;  // C20: explore every single-fault plan
-    int fault_sites = 0;
+    uint32_t fault_mask = 0xffffffffu;  // which may_throw sites are enumerated
     int pmax_thorough = -1;  // optional override
 };
 
@@ -136,6 +136,8 @@ struct Options {
     int only_item = -1;
     long seed = 0;
     int pmax = -1;  // iterate P up to this (-1: item bounds)
+    int rbound = -1;  // override the stale-read budget of every item
+    int max_items = -1;  // explore only the first N items (reported in evidence)
     bool until_exhaustive = false;
     // how many cover flags must have been seen over all items (vacuity check)
     uint64_t required_cover = 0;
